@@ -52,6 +52,7 @@ def _work(args):
         prog, reg = build()
         c = reg.contracts[target]
         solve.FAILED[0] = 0
+        reg.baseline_locals = load_baseline_locals(prop)
         ex = Engine(prog, reg)
         r = ex.verify(c)
         info = getattr(ex, 'cur_info', None)
@@ -66,7 +67,8 @@ def _work(args):
                 'seconds': round(time.time() - t0, 3), 'obligations': obs, 'file': r.get('file'), 'line': r.get('line'),
                 'source_hash': r.get('source_hash'), 'externals': sorted(ex.used_externals),
                 'callee_contracts': sorted(ex.used_contracts), 'inlined': sorted(ex.inlined), 'dropped': sorted(ex.dropped),
-                'assumptions': list(reg.assumptions), 'stats': dict(solve.STATS), 'verify': c.verify}
+                'assumptions': list(reg.assumptions), 'stats': dict(solve.STATS), 'verify': c.verify,
+                'locals': list(getattr(ex, 'local_names', [])), 'renamed_locals': dict(getattr(ex, 'renamed_locals', {}))}
     except Exception as e:
         return {'target': target, 'status': 'crash', 'error': '%s\n%s' % (e, traceback.format_exc()), 'obligations': [],
                 'paths': 0, 'covers': 0, 'seconds': round(time.time() - t0, 3), 'externals': [], 'callee_contracts': [],
@@ -184,6 +186,13 @@ def load_baseline(prop):
     if not os.path.exists(p):
         return set()
     return set(json.load(open(p)).get('proved', []))
+
+
+def load_baseline_locals(prop):
+    p = os.path.join(VERIF, 'baseline', prop + '.json')
+    if not os.path.exists(p):
+        return {}
+    return json.load(open(p)).get('locals', {})
 
 
 def run_known_witness(k):
@@ -326,7 +335,10 @@ def check_property(prop, tier='quick', seed=0, jobs=None, update_baseline=False)
         else:
             os.makedirs(os.path.join(VERIF, 'baseline'), exist_ok=True)
             with open(os.path.join(VERIF, 'baseline', prop + '.json'), 'w') as f:
-                json.dump({'property': prop, 'proved': sorted(n for n, c in clauses.items() if c['verdict'] == 'proved')}, f, indent=1)
+                json.dump({'property': prop, 'proved': sorted(n for n, c in clauses.items() if c['verdict'] == 'proved'),
+                           # names of the locals of every function under contract, in order of first binding: lets a later run
+                           # recognise a pure renaming of locals that the contracts refer to by name
+                           'locals': {r['target']: r.get('locals', []) for r in results}}, f, indent=1)
     if violations:
         return 1
     if crashes:
